@@ -29,6 +29,8 @@ type WSServer struct {
 	mu    sync.Mutex
 	raw   map[string]net.Conn // accepted TCP connections by remote address
 	TLS   bool
+	done     chan struct{}
+	doneOnce sync.Once
 }
 
 type capListener struct {
@@ -72,7 +74,12 @@ func listenWS(tc *tls.Config) (*WSServer, error) {
 	if err != nil {
 		return nil, err
 	}
-	s := &WSServer{L: l, Addr: "ws://" + l.Addr().String() + "/xmpp", conns: make(chan *WSConn, 8), raw: map[string]net.Conn{}}
+	return ServeWSOn(l, tc), nil
+}
+
+// ServeWSOn serves the WebSocket endpoint on a listener the caller made (and may wrap to see raw connections first).
+func ServeWSOn(l net.Listener, tc *tls.Config) *WSServer {
+	s := &WSServer{L: l, Addr: "ws://" + l.Addr().String() + "/xmpp", conns: make(chan *WSConn, 8), raw: map[string]net.Conn{}, done: make(chan struct{})}
 	if tc != nil {
 		_, port, _ := net.SplitHostPort(l.Addr().String())
 		s.Addr = "wss://localhost:" + port + "/xmpp"
@@ -98,7 +105,7 @@ func listenWS(tc *tls.Config) (*WSServer, error) {
 	} else {
 		go s.hs.Serve(capListener{l, s})
 	}
-	return s, nil
+	return s
 }
 
 func (s *WSServer) Accept(timeout time.Duration) (*WSConn, error) {
@@ -110,7 +117,14 @@ func (s *WSServer) Accept(timeout time.Duration) (*WSConn, error) {
 	}
 }
 
-func (s *WSServer) Close() { s.hs.Close() }
+func (s *WSServer) Close() {
+	s.hs.Close()
+	s.doneOnce.Do(func() { close(s.done) })
+}
+
+// Conns delivers the upgraded connections; Done is closed by Close.
+func (s *WSServer) Conns() <-chan *WSConn   { return s.conns }
+func (s *WSServer) Done() <-chan struct{} { return s.done }
 
 type WSConn struct {
 	TLS  bool
@@ -276,6 +290,9 @@ func WSFrames(s string) []string {
 	}
 	if s == "</stream:stream>" {
 		return append(out, "<close xmlns='"+NSFraming+"'/>")
+	}
+	if strings.HasSuffix(s, "</stream:stream>") {
+		return append(WSFrames(strings.TrimSuffix(s, "</stream:stream>")), "<close xmlns='"+NSFraming+"'/>")
 	}
 	fix := func(prefix, with string) {
 		if strings.HasPrefix(s, prefix) {
